@@ -6,6 +6,7 @@ from typing import Set
 
 ARRAY_CTORS = {"zeros", "ones", "empty", "full", "zeros_like", "full_like", "ones_like", "arange", "array", "where",
                "copy", "unique", "flatten", "cos", "abs", "sqrt", "diff", "astype", "round", "clip"}
+ARRAY_RETURNING = {"ws2d", "gammastd"}
 REDUCTIONS = {"sum", "median", "nanmedian", "mean", "any", "all", "max", "min", "size"}
 
 
@@ -45,6 +46,8 @@ def array_names(fn: ast.FunctionDef, array_params: Set[str]) -> Set[str]:
                 if f == "round" and isinstance(e.func, ast.Attribute):
                     return any(is_arr(a) for a in e.args[:1])
                 return False
+            if f in ARRAY_RETURNING:
+                return True
             if f in ARRAY_CTORS:
                 if f in ("abs", "sqrt", "cos", "round"):
                     return any(is_arr(a) for a in e.args[:1])
